@@ -231,11 +231,35 @@ func (in *interner) id(s string) int64 {
 	return v
 }
 
+// needsSanitising: does the value hold a byte net/http does not put into a cookie value as it is? (only such values can
+// differ from what is issued for them; the others — base64, hex, plain URLs — are not worth a round trip)
+func needsSanitising(v string) bool {
+	for i := 0; i < len(v); i++ {
+		if c := v[i]; c < 0x21 || c > 0x7e || c == '"' || c == ';' || c == '\\' || c == ',' {
+			return true
+		}
+	}
+	return false
+}
+
+var wireCache = map[string]string{}
+
 // wireValue: the value a client reads back from the Set-Cookie line net/http writes for value v
 func wireValue(v string) string {
 	if v == "" {
 		return ""
 	}
+	if w, ok := wireCache[v]; ok {
+		return w
+	}
+	w := wireValueUncached(v)
+	if len(wireCache) < 100000 {
+		wireCache[v] = w
+	}
+	return w
+}
+
+func wireValueUncached(v string) string {
 	rec := httptest.NewRecorder()
 	http.SetCookie(rec, &http.Cookie{Name: cookieName, Value: v})
 	for _, ck := range rec.Result().Cookies() {
@@ -891,7 +915,7 @@ func (c *stickyComp) Run(h *hlib.History) (mons []hlib.Mon, ok bool) {
 				// the model knows), whenever sanitising that value gives exactly what was issued
 				best := int64(-1)
 				for m, id := range in.ids {
-					if m != *issued && (best < 0 || id < best) && wireValue(m) == *issued {
+					if m != *issued && (best < 0 || id < best) && needsSanitising(m) && wireValue(m) == *issued {
 						best = id
 					}
 				}
